@@ -3,6 +3,7 @@
 from bisturi.packet import PacketError
 
 from vlib import refmodel as R
+from vlib.hx import total_repr
 from vlib import spec as S
 
 
@@ -349,3 +350,237 @@ def h_pack_errors(spec, cls, key, generated, fname, value):
     if "packing" not in text:
         return "FAIL sig=C12|rendering-misses-phase|%s" % key
     return "ok:rejected-located"
+
+
+class _Other:
+    pass
+
+
+def h_equality(spec, cls, other_cls, raw, off, key, d, c):
+    """C20: equality is structural and total.  d: non-zero int delta, c: one extra byte value"""
+    try:
+        p = cls.unpack(raw, off)
+    except PacketError:
+        return "ok:rejected"
+    q = cls.unpack(raw, off)
+    try:
+        if not (p == q):
+            return "FAIL sig=C20|same-bytes-parse-unequal|%s" % key
+        if p != q:
+            return "FAIL sig=C20|ne-not-negation-of-eq|%s" % key
+        if p == other_cls() or not (p != other_cls()):
+            return "FAIL sig=C20|equal-to-other-class|%s" % key
+        if p == 5 or p == None or not (p != b"x"):  # noqa: E711
+            return "FAIL sig=C20|equal-to-non-packet|%s" % key
+        text = total_repr(p)
+    except Exception as e:
+        return "FAIL sig=C20|comparison-or-repr-raises-%s|%s" % (type(e).__name__, key)
+    if not isinstance(text, str):
+        return "FAIL sig=C20|repr-malformed|%s" % key
+    # changing any one value-bearing field makes the packets unequal (new value = old + d, d != 0; old + one byte)
+    extra = b"!"   # appended to byte-string values (a symbolic byte here would be concretised by bytes([c]))
+    for fname, f in spec.fields:
+        if isinstance(f, S.Em):
+            continue
+        q = cls.unpack(raw, off)
+        old = getattr(q, fname)
+        where = fname
+        if isinstance(f, (S.Int, S.Bits)):
+            setattr(q, fname, old + d)
+        elif isinstance(f, S.Data):
+            setattr(q, fname, old + extra)
+        elif isinstance(f, S.Seq):
+            if isinstance(f.elem, (S.Int, S.Bits)):
+                setattr(q, fname, list(old) + [d])
+            elif len(old) > 0:
+                setattr(q, fname, list(old)[:-1])
+            else:
+                continue
+        elif isinstance(f, S.Opt):
+            if old is None:
+                setattr(q, fname, d if isinstance(f.elem, (S.Int, S.Bits)) else extra)
+            else:
+                setattr(q, fname, None)
+        elif isinstance(f, S.Ref):
+            n2, f2 = f.decl.fields[0]
+            if not isinstance(f2, (S.Int, S.Bits)):
+                continue
+            setattr(old, n2, getattr(old, n2) + d)
+            where = fname + "." + n2
+        else:
+            continue
+        try:
+            if p == q or not (p != q):
+                return "FAIL sig=C20|difference-not-detected|%s|%s" % (key, where)
+        except Exception as e:
+            return "FAIL sig=C20|comparison-or-repr-raises-%s|%s" % (type(e).__name__, key)
+    return "ok:accepted"
+
+
+# ---------------------------------------------------------------------------------------------------
+# building real packets from reference values (C02, C19)
+# ---------------------------------------------------------------------------------------------------
+def to_real(v, f, ns):
+    """reference value -> value to hand to bisturi (nested V -> packet instance of the class named like its decl)"""
+    if isinstance(f, S.Opt):
+        return None if v is None else to_real(v, f.elem, ns)
+    if isinstance(f, S.Seq):
+        return [to_real(x, f.elem, ns) for x in v]
+    if isinstance(v, R.V):
+        decl = None
+        if isinstance(f, S.Ref):
+            decl = f.decl
+        elif isinstance(f, S.RefSel):
+            for o in list(f.options.values()) + [f.other]:
+                if isinstance(o, S.Decl) and o.name == v._cname:
+                    decl = o
+        return build_packet(decl, v, ns, False)
+    return v
+
+
+def build_packet(decl, vals, ns, via_setattr):
+    cls = ns[decl.name]
+    kw = {}
+    for fname, f in decl.fields:
+        if isinstance(f, S.Em):
+            continue
+        kw[fname] = to_real(getattr(vals, fname), f, ns)
+    if via_setattr:
+        p = cls()
+        for k2, v2 in kw.items():
+            setattr(p, k2, v2)
+        return p
+    return cls(**kw)
+
+
+def h_pack_parse(spec, cls, ns, raw, key):
+    """C02: values taken from the reference parse of a symbolic string are consistent by construction; a packet built
+    from them (constructor / attribute assignment) packs to the declared layout, re-parses completely to equal values"""
+    ref, rej = run_ref(spec, raw, 0)
+    if ref is None:
+        return "ok:no-values"
+    if _overlaps(ref.consumed):
+        return "ok:overlapping-layout"
+    try:
+        want = R.ref_pack(spec, ref.values)
+    except R.Reject:
+        return "ok:no-values"
+    for via in (False, True):
+        p = build_packet(spec, ref.values, ns, via)
+        try:
+            out = p.pack()
+        except PacketError as e:
+            return "FAIL sig=C02|consistent-values-rejected-on-pack|%s via_setattr=%r values=%r" % (key, via, R.plain(ref.values))
+        if out != want:
+            return "FAIL sig=C02|bytes-differ-from-declared-layout|%s out=%r want=%r values=%r" % (key, out, want, R.plain(ref.values))
+        q = cls(_initialize_fields=False)
+        try:
+            end = q.unpack_impl(out, 0, root=q)
+        except PacketError:
+            return "FAIL sig=C02|own-output-rejected|%s out=%r" % (key, out)
+        if end != len(out) and not _ends_before_extent(spec):
+            return "FAIL sig=C02|reparse-does-not-consume-everything|%s out=%r end=%r" % (key, out, end)
+        if R.observe(q, spec) != R.plain(ref.values):
+            return "FAIL sig=C02|reparse-values-differ|%s got=%r want=%r" % (key, R.observe(q, spec), R.plain(ref.values))
+        try:
+            if p.assert_consistency() is not True:
+                return "FAIL sig=C02|assert-consistency-not-true|%s" % key
+        except Exception as e:
+            return "FAIL sig=C02|assert-consistency-raises-%s|%s" % (type(e).__name__, key)
+    return "ok:accepted"
+
+
+def _ends_before_extent(spec):
+    """declarations whose last field is positioned backwards leave the cursor before the end of the string"""
+    def back(f):
+        return f.move is not None
+    return any(back(f) for _, f in spec.fields) or any(_ends_before_extent(d) for d in spec.subdecls())
+
+
+def declared_default(f, opts):
+    """(kind, value) the declaration promises for a default-constructed packet"""
+    if isinstance(f, (S.Int, S.Bits)):
+        return 0 if f.default is None else f.default
+    if isinstance(f, S.Data):
+        if f.default is not None:
+            return f.default
+        if f.size is not None and f.size.kind == "const":
+            return b"\x00" * f.size.v
+        return b""
+    if isinstance(f, S.Ref):
+        return default_values(f.decl)
+    if isinstance(f, S.Seq):
+        return [] if f.default is None else eval(f.default)
+    if isinstance(f, S.Opt):
+        return None if f.default is None else eval(f.default)
+    raise TypeError(f)
+
+
+def default_values(decl):
+    vals = R.V(decl.name)
+    for fname, f in decl.fields:
+        if isinstance(f, (S.Em, S.RefSel)):
+            continue
+        setattr(vals, fname, declared_default(f, decl.opts))
+    return vals
+
+
+def h_defaults(spec, cls, ns, key, v, b):
+    """C19: Cls(**some) holds the declared default in every field not named and the given value in every field named"""
+    names = [n for n, f in spec.fields if not isinstance(f, (S.Em, S.RefSel))]
+    fields = dict(spec.fields)
+    k = min(len(names), 5)
+    base = default_values(spec)
+    proto = cls()
+    for mask in range(1 << k):
+        kw = {}
+        want = default_values(spec)
+        for i in range(k):
+            if not (mask >> i) & 1:
+                continue
+            n = names[i]
+            f = fields[n]
+            if isinstance(f, S.Bits):
+                val = v % (1 << f.w)      # a bit field given a value inside its range (others are reduced mod 2**w: C07)
+            elif isinstance(f, S.Int):
+                val = v
+            elif isinstance(f, S.Data):
+                if f.size is not None and f.size.kind == "const":
+                    val = (b + b"\x00" * f.size.v)[:f.size.v]
+                else:
+                    val = b
+            elif isinstance(f, S.Seq) and isinstance(f.elem, (S.Int, S.Bits)):
+                val = [v, 7]
+            elif isinstance(f, S.Opt) and isinstance(f.elem, (S.Int, S.Bits)):
+                val = v
+            else:
+                continue
+            kw[n] = val
+            setattr(want, n, val)
+        p = cls(**kw)
+        for n in names:
+            f = fields[n]
+            got = getattr(p, n)
+            exp = getattr(want, n)
+            if isinstance(f, S.Ref):
+                if got is getattr(proto, n) or not isinstance(got, ns[f.decl.name]):
+                    return "FAIL sig=C19|prototype-shared-or-wrong-class|%s|%s" % (key, n)
+                if R.observe(got, f.decl) != R.plain(exp):
+                    return "FAIL sig=C19|nested-default-differs|%s|%s got=%r want=%r" % (key, n, R.observe(got, f.decl), R.plain(exp))
+            else:
+                if isinstance(got, list) and n not in kw and got is getattr(proto, n):
+                    return "FAIL sig=C19|default-list-shared|%s|%s" % (key, n)
+                if got != exp:
+                    return "FAIL sig=C19|field-value|%s|%s given=%r got=%r want=%r" % (key, n, sorted(kw), got, exp)
+        # pack() is the encoding of those values
+        try:
+            want_bytes = R.ref_pack(spec, want)
+        except R.Reject:
+            want_bytes = None
+        try:
+            out = p.pack()
+        except PacketError:
+            out = None
+        if out != want_bytes:
+            return "FAIL sig=C19|pack-of-defaults|%s given=%r out=%r want=%r" % (key, sorted(kw), out, want_bytes)
+    return "ok:accepted"
